@@ -102,10 +102,29 @@ func diffsOf(d sim.Diffs) string {
 
 // fold validates and applies the block's transactions one at a time over a MidState.
 func fold(cs consensus.State, b types.Block, bs consensus.V1BlockSupplement) error {
+	return foldWith(cs, b, bs, false)
+}
+
+// foldWith validates the block one transaction at a time on one MidState. With rejects set, every transaction is
+// preceded - on the same MidState, the way a transaction pool assembles a block and skips what it has to refuse - by
+// variants of itself that validation must refuse only after having accepted part of them (a contract operation or an
+// input repeated at the end, a transaction that spends more than it has); their verdicts are discarded (recovering from a
+// panic, too). A refused transaction must leave the intermediate state as it found it.
+func foldWith(cs consensus.State, b types.Block, bs consensus.V1BlockSupplement, rejects bool) error {
 	ms := consensus.NewMidState(cs)
+	try := func(f func()) {
+		defer func() { recover() }()
+		f()
+	}
 	for i, txn := range b.Transactions {
 		if i >= len(bs.Transactions) {
 			return fmt.Errorf("supplement too short")
+		}
+		if rejects {
+			for _, bad := range refusedV1(txn) {
+				bad := bad
+				try(func() { _ = consensus.ValidateTransaction(ms, bad, bs.Transactions[i]) })
+			}
 		}
 		if err := consensus.ValidateTransaction(ms, txn, bs.Transactions[i]); err != nil {
 			return fmt.Errorf("transaction %d is invalid: %w", i, err)
@@ -113,12 +132,63 @@ func fold(cs consensus.State, b types.Block, bs consensus.V1BlockSupplement) err
 		ms.ApplyTransaction(txn, bs.Transactions[i])
 	}
 	for i, txn := range b.V2Transactions() {
+		if rejects {
+			for _, bad := range refusedV2(txn) {
+				bad := bad
+				try(func() { _ = consensus.ValidateV2Transaction(ms, bad) })
+			}
+		}
 		if err := consensus.ValidateV2Transaction(ms, txn); err != nil {
 			return fmt.Errorf("v2 transaction %d is invalid: %w", i, err)
 		}
 		ms.ApplyV2Transaction(txn)
 	}
 	return nil
+}
+
+// refusedV2 builds variants of txn that are refused late: the last element of a populated list is listed once more
+// (the first copy passes its checks, the repeat is refused), and the miner fee is raised beyond the inputs.
+func refusedV2(txn types.V2Transaction) []types.V2Transaction {
+	var out []types.V2Transaction
+	add := func(f func(x *types.V2Transaction)) {
+		x := sim.CloneV2(txn)
+		f(&x)
+		out = append(out, x)
+	}
+	if n := len(txn.FileContractRevisions); n > 0 {
+		add(func(x *types.V2Transaction) { x.FileContractRevisions = append(x.FileContractRevisions, x.FileContractRevisions[n-1]) })
+	}
+	if n := len(txn.FileContractResolutions); n > 0 {
+		add(func(x *types.V2Transaction) { x.FileContractResolutions = append(x.FileContractResolutions, x.FileContractResolutions[n-1]) })
+	}
+	if n := len(txn.SiacoinInputs); n > 0 {
+		add(func(x *types.V2Transaction) { x.SiacoinInputs = append(x.SiacoinInputs, x.SiacoinInputs[n-1]) })
+		add(func(x *types.V2Transaction) { x.MinerFee = x.MinerFee.Add(types.NewCurrency64(1)) })
+	}
+	if n := len(txn.SiafundInputs); n > 0 {
+		add(func(x *types.V2Transaction) { x.SiafundInputs = append(x.SiafundInputs, x.SiafundInputs[n-1]) })
+	}
+	return out
+}
+
+func refusedV1(txn types.Transaction) []types.Transaction {
+	var out []types.Transaction
+	add := func(f func(x *types.Transaction)) {
+		x := sim.CloneV1(txn)
+		f(&x)
+		out = append(out, x)
+	}
+	if n := len(txn.FileContractRevisions); n > 0 {
+		add(func(x *types.Transaction) { x.FileContractRevisions = append(x.FileContractRevisions, x.FileContractRevisions[n-1]) })
+	}
+	if n := len(txn.StorageProofs); n > 0 {
+		add(func(x *types.Transaction) { x.StorageProofs = append(x.StorageProofs, x.StorageProofs[n-1]) })
+	}
+	if n := len(txn.SiacoinInputs); n > 0 {
+		add(func(x *types.Transaction) { x.SiacoinInputs = append(x.SiacoinInputs, x.SiacoinInputs[n-1]) })
+		add(func(x *types.Transaction) { x.MinerFees = append(x.MinerFees, types.NewCurrency64(1)) })
+	}
+	return out
 }
 
 // aliasProofs returns a copy of b whose Merkle proofs are all sub-slices of one backing array.
@@ -397,6 +467,14 @@ func checkBlock(ch *sim.Chain, b types.Block, bs consensus.V1BlockSupplement, la
 			rec.Label("txn-at-a-time:rejection-worded-differently")
 		}
 		rec.Label("txn-at-a-time:" + map[bool]string{true: "accepted", false: "rejected"}[accepted])
+		// (3b) the same with refused variants of every transaction validated first on the same intermediate state
+		rerr := foldWith(cs, b, bs, true)
+		if err := pure("MidState validate/apply with refused transactions in between"); err != nil {
+			return err
+		}
+		if (rerr == nil) != (ferr == nil) {
+			return stats.Failf("C09/refused-transaction-leaves-residue", "validated one at a time the block's transactions give %q, but %q when refused variants of them are validated on the same MidState first (%s)", verdict(ferr), verdict(rerr), label)
+		}
 	}
 	// (4) provenance
 	if accepted || txStage {
